@@ -7,12 +7,15 @@ EXTENDS Constraints, Json, IOUtils, TLC, SequencesExt
 CONSTANTS MaxC,        \* length constants range over 0..MaxC
           ChainCs,     \* constants used in the chain families (a subset of 0..MaxC)
           Triples,     \* BOOLEAN: include the three-atom families (thorough tier)
-          TripleCs     \* constants used in the three-atom families
+          TripleCs,    \* constants used in the three-atom families
+          DiaCs        \* constants used in the diamond family
 
 Cs == 0..MaxC
 RecOps == LenOps \ {"!="}
 NeedsOpt(cls, prim) == \E j \in 1..Len(cls) : \E a \in Range(cls[j]) : a.g \in SameGuards
-Scn(kind, wmt, cls, prim) == [kind |-> kind, opt |-> NeedsOpt(cls, prim), wmt |-> wmt, cls |-> cls, prim |-> prim]
+Scn(kind, wmt, cls, prim) == [kind |-> kind, opt |-> NeedsOpt(cls, prim), wmt |-> wmt, shape |-> "chain", cls |-> cls, prim |-> prim]
+Dia(kind, shape, cls, prim) == [kind |-> kind, opt |-> NeedsOpt(cls, prim), wmt |-> TRUE, shape |-> shape, cls |-> cls, prim |-> prim]
+DiaShapes == {"dia_ab", "dia_ba"}
 
 \* atom universes
 LenU(ops, cs, sides, gs) == {LenAtom(op, c, sd, g, "const") : op \in ops, c \in cs, sd \in sides, g \in gs}
@@ -83,7 +86,22 @@ F7 == UNION {
           Scn("cprim", TRUE, <<<<SetAtom(<<"S_ab">>, "none")>>, <<b>>>>, <<<<a, PatAtom(p, "none")>>>>) }
         : a \in LenU({"<=", ">"}, {1, 3}, {"L"}, {"none"}), b \in LenU({">=", "<"}, {2}, {"R"}, {"none"}), p \in {<<"ab">>, <<"ab", "bc">>} }
 
-Families == <<F1, F2, F3, F4, F5, F6, F7>>
+\* F8: multiple inheritance (diamond C1 <- C2, C1 <- C3, C4(C2, C3) and C4(C3, C2)): the two direct parents constrain the
+\* same inherited property; C4 must get the conjunction over ALL ancestors, whatever the order of its bases
+TinyLen == LenU({"<=", ">="}, {1, 3}, {"L"}, {"none"})
+F8 == UNION {
+        { Dia("str", sh, <<<<>>, <<a>>, <<b>>, <<>>>>, <<>>) : a \in Plain(DiaCs), b \in Plain(DiaCs) }
+        \cup { Dia("list", sh, <<<<t>>, <<a>>, <<b>>, <<d>>>>, <<>>) : t \in {LenAtom(">=", 1, "L", "none", "const")}, a \in TinyLen, b \in TinyLen, d \in TinyLen }
+        \cup { Dia("str", sh, <<<<>>, <<PatAtom(p, "none"), a>>, <<PatAtom(q, "none")>>, <<>>>>, <<>>)
+                 : p \in {<<"ab">>, <<"bmpx">>}, q \in {<<"ab">>, <<"bc">>}, a \in TinyLen }
+        \cup { Dia(kind, sh, <<<<>>, <<SetAtom(p, "none")>>, <<SetAtom(q, "none")>>, <<>>>>, <<>>)
+                 : kind \in {"str"}, p \in StrSetSeqs, q \in StrSetSeqs }
+        \cup { Dia("enum", sh, <<<<>>, <<SetAtom(p, "none")>>, <<SetAtom(q, "none")>>, <<SetAtom(<<"E_rg">>, "none")>>>>, <<>>)
+                 : p \in EnumSetSeqs, q \in EnumSetSeqs }
+        \cup { Dia("cprim", sh, <<<<>>, <<a>>, <<b>>, <<>>>>, <<<<LenAtom(">=", 1, "L", "none", "const")>>>>) : a \in TinyLen, b \in TinyLen }
+        : sh \in DiaShapes }
+
+Families == <<F1, F2, F3, F4, F5, F6, F7, F8>>
 Scenarios == UNION {Families[j] : j \in DOMAIN Families}
 
 ASSUME JsonSerialize(IOEnv.VERIF_OUT, SetToSeq(Scenarios))
